@@ -38,6 +38,7 @@ CLAUSES = {
     "cancel-panic": ("C12", "Cancel panicked"),
     "not-started": ("C12 C13", "a future nobody cancelled was not started by quiescence"),
     "late": ("C13", "Start later than the lateness bound L after Call + d"),
+    "order": ("C13", "a future was started while an earlier one (by more than the gap) was still waiting: the queue lost its order"),
     "idle": ("C13", "watcher goroutines still alive long after the last activity with nothing pending"),
     "pool": ("C13", "more watcher goroutines than maxWorkers"),
     "crash": ("C12 C13", "package timeout panicked in its own goroutine (process crashed)"),
@@ -404,6 +405,9 @@ class Mirror:
                 return "cancelled"
             if cfg.get("late") == 1 and t - self.ref[i] > cfg["L"]:
                 return "late"
+            if cfg.get("gap", 0) > 0 and any(j != i and j not in self.started and j not in self.cancelled
+                                             and self.ref[j] + cfg["gap"] <= self.due[i] for j in self.due):
+                return "order"
             self.started.add(i)
         elif k == "CancelRet":
             i = e["i"]
